@@ -69,6 +69,25 @@ func (w *c02Walker) fail(owner, term, sym, format string, a ...any) {
 	w.fails = append(w.fails, c02Fail{owner, term, sym, fmt.Sprintf(format, a...)})
 }
 
+// c02SaysNothing: language lists whose entries all hold an empty text, and a Source that consists of such a list only.
+func c02SaysNothing(f *universe.Field, fv reflect.Value) bool {
+	empty := func(n ap.NaturalLanguageValues) bool {
+		for _, e := range n {
+			if len(e.Value) > 0 {
+				return false
+			}
+		}
+		return true
+	}
+	switch v := fv.Interface().(type) {
+	case ap.NaturalLanguageValues:
+		return empty(v)
+	case ap.Source:
+		return v.MediaType == "" && empty(v.Content)
+	}
+	return false
+}
+
 func c02Describe(t reflect.Type) *universe.Struct {
 	return universe.ByName(t.Name())
 }
@@ -112,6 +131,9 @@ func (w *c02Walker) object(sv reflect.Value, j *jsonref.Node, path string) {
 		}
 		if m == nil && f.Kind == universe.KFloat && (math.IsNaN(fv.Float()) || math.IsInf(fv.Float(), 0)) {
 			continue // JSON has no number for NaN and the infinities: saying nothing is the only valid output
+		}
+		if m == nil && c02SaysNothing(f, fv) {
+			continue // a language list (or a source made of one) whose texts are all empty says nothing
 		}
 		if m == nil {
 			w.fail(owner, f.Term, "populated-field-missing", "%s: %s is set but not written under its term", path, f.Term)
@@ -260,6 +282,27 @@ func (w *c02Walker) item(owner, term string, it ap.Item, m *jsonref.Node, path s
 			return
 		}
 		if len(m.Elems) != len(nonNil) {
+			// an empty IRI may also be written as the empty string it is (IRIs does that), instead of being left out
+			var withEmpty []ap.Item
+			for _, e := range elems {
+				if iri, ok := e.(ap.IRI); ok && iri == "" {
+					withEmpty = append(withEmpty, e)
+				} else if canon.Of(e, canon.JSON) != nil {
+					withEmpty = append(withEmpty, e)
+				}
+			}
+			if len(m.Elems) == len(withEmpty) {
+				for i, e := range withEmpty {
+					if iri, ok := e.(ap.IRI); ok && iri == "" {
+						if m.Elems[i].Kind != "string" || m.Elems[i].Str != "" {
+							w.fail(owner, term, "empty-iri-written-as-something", "%s[%d]: an empty IRI written as %s %q", path, i, m.Elems[i].Kind, m.Elems[i].Str)
+						}
+						continue
+					}
+					w.item(owner, term, e, m.Elems[i], fmt.Sprintf("%s[%d]", path, i))
+				}
+				return
+			}
 			w.fail(owner, term, "list-length", "%s: %d items held, %d written", path, len(nonNil), len(m.Elems))
 			return
 		}
@@ -610,6 +653,46 @@ func c02Run(c *engine.Ctx) {
 		}
 	}
 	// (iii-a) language lists in which a tag occurs more than once (a JSON object must not repeat a member)
+	// (iii-a0) language lists in which some entries hold an empty text (they say nothing): what remains decides the written form
+	for k, l := range [][][2]string{{{"en", "hello"}, {"fr", ""}}, {{"-", ""}, {"en", "x"}}, {{"en", ""}, {"fr", ""}}, {{"en", "a"}, {"fr", ""}, {"de", "c"}}, {{"-", "plain"}, {"en", ""}}, {{"", ""}, {"-", "x"}, {"en", ""}}} {
+		k, l := k, l
+		mk := func() ap.NaturalLanguageValues {
+			var n ap.NaturalLanguageValues
+			for _, e := range l {
+				n = append(n, ap.LangRefValue{Ref: ap.LangRef(e[0]), Value: ap.Content(e[1])})
+			}
+			return n
+		}
+		c02Check(c, "empty-texts", fmt.Sprint(l), func() string { return fmt.Sprintf("*Actor whose text properties hold %q (list #%d)", l, k) }, func() any {
+			return &ap.Actor{ID: "https://example.com/1", Type: ap.PersonType, Name: mk(), Summary: mk(), Content: mk(), PreferredUsername: mk(), Source: ap.Source{Content: mk()}}
+		}, both, true)
+		c02Check(c, "empty-texts", fmt.Sprint(l), func() string { return fmt.Sprintf("*Link whose name holds %q", l) }, func() any {
+			return &ap.Link{ID: "https://example.com/l", Type: ap.LinkType, Href: "https://example.com/h", Name: mk()}
+		}, both, true)
+		c02Check(c, "empty-texts", fmt.Sprint(l), func() string { return fmt.Sprintf("NaturalLanguageValues %q", l) }, func() any { return mk() }, []string{"method"}, true)
+	}
+	// (iii-a1) IRI lists with empty members anywhere: every arrangement of length <= 3 over {a, b, empty}, alone and in properties
+	{
+		alphabet := []ap.IRI{"https://example.com/a", "https://example.com/b", ""}
+		var rec func(cur ap.IRIs)
+		rec = func(cur ap.IRIs) {
+			if len(cur) > 0 {
+				l := append(ap.IRIs{}, cur...)
+				label := fmt.Sprintf("%q", []ap.IRI(l))
+				c02Check(c, "sparse-iris", "empty-members", func() string { return "IRIs " + label }, func() any { return append(ap.IRIs{}, l...) }, []string{"method"}, true)
+				c02Check(c, "sparse-iris", "empty-members", func() string { return "*Object with attributedTo, inReplyTo = IRIs " + label }, func() any {
+					return &ap.Object{ID: "https://example.com/1", Type: ap.NoteType, AttributedTo: append(ap.IRIs{}, l...), InReplyTo: append(ap.IRIs{}, l...)}
+				}, both, true)
+			}
+			if len(cur) == 3 {
+				return
+			}
+			for _, x := range alphabet {
+				rec(append(append(ap.IRIs{}, cur...), x))
+			}
+		}
+		rec(nil)
+	}
 	for k, tags := range [][]string{{"en", "en"}, {"-", ""}, {"-", "und"}, {"en", "fr", "en"}, {"", "en", "-"}, {"und", "und", "fr"}, {"en", "en", "en"}} {
 		k, tags := k, tags
 		c02Check(c, "repeated-tag", fmt.Sprint(tags), func() string {
